@@ -8,6 +8,7 @@ Mirrors, branch by branch:
                      recording vs non-recording span)
   * span.go          isRecording / isSampled, recordingSpan.End -> OnEnd, nonRecordingSpan.End (no-op)
   * simple_span_processor.go / batch_span_processor.go   forward only spans whose sampled flag is set
+                     (OnEnd; enqueueDrop and enqueueBlockOnQueueFull) — every stock configuration
   * id_generator.go  randomIDGenerator.NewIDs / NewSpanID (retry loops) over math/rand's byte stream
   * sampler_env.go   samplerFromEnv / parseTraceIDRatio
 
@@ -217,6 +218,30 @@ simple and batch processor hand it to the exporter only if its sampled flag is s
 def exportedOf (outs : List StartOut) : List Exported :=
   (outs.reverse.filter (fun o => o.recording && o.ctx.sampled)).map
     (fun o => ⟨o.ctx.sid, o.ctx.tid, o.psc.tid, o.psc.sid⟩)
+
+/-- the stock span-processor configurations a provider can carry side by side (each with its own exporter):
+`NewSimpleSpanProcessor`; `NewBatchSpanProcessor` with default options; `WithBlocking()`;
+a small `WithMaxExportBatchSize`; `WithBlocking()` with queue and batch size 1 -/
+inductive Proc where
+  | simple | batch | batchBlocking | batchSmall | batchBlockingSmall
+deriving DecidableEq, Repr, Inhabited
+
+/-- what the exporter behind processor `p` holds after every span was ended (reverse start order) and the
+provider was flushed and shut down. Every configuration applies the same filter:
+  * simple: `OnEnd` tests `s.SpanContext().TraceFlags().IsSampled()`;
+  * batch, default: `OnEnd → enqueue → enqueueDrop` tests `sd.SpanContext().IsSampled()`;
+  * batch, `WithBlocking()`: `OnEnd → enqueue → enqueueBlockOnQueueFull` tests `sd.SpanContext().IsSampled()`;
+  * queue/batch sizes only change how the queue is cut into `ExportSpans` calls, not what is delivered once
+    flushed (no drop: the trees are smaller than any queue that does not block);
+so there is one definition. -/
+def exportedBy (_p : Proc) (outs : List StartOut) : List Exported := exportedOf outs
+
+def Proc.all : List Proc := [.simple, .batch, .batchBlocking, .batchSmall, .batchBlockingSmall]
+
+/-- the tag the harness prints for each exporter -/
+def Proc.tag : Proc → String
+  | .simple => "exp:S" | .batch => "exp:B" | .batchBlocking => "exp:K" | .batchSmall => "exp:Q"
+  | .batchBlockingSmall => "exp:R"
 
 /-! ## id_generator.go: retry loops over the math/rand byte stream -/
 
